@@ -341,11 +341,12 @@ fn ops_text(ops: &[Value]) -> String {
 pub fn replay(args: &[String]) {
     isolate_git_env();
     let stride: usize = args.get(1).and_then(|s| s.parse().ok()).unwrap_or(1);
+    let istride: usize = args.get(2).and_then(|s| s.parse().ok()).unwrap_or(1);
     let all = tlc_lines(&args[0], "REPLAY");
     // keep every "interesting" state (merge, several tags on a commit, unreachable tag, detached) and
     // every stride-th of the rest
     let cases: Vec<Value> = all.into_iter().enumerate()
-        .filter(|(i, c)| c["interesting"].as_bool().unwrap() || i % stride == 0).map(|(_, c)| c).collect();
+        .filter(|(i, c)| if c["interesting"].as_bool().unwrap() { i % istride == 0 } else { i % stride == 0 }).map(|(_, c)| c).collect();
     let results = par_map(&cases, |case| {
         let ops = arr(&case["ops"]);
         let text = ops_text(&ops);
